@@ -37,7 +37,9 @@ def run(rep, kf, tier, seed):
     import contracts.union_convert as cuc
     engine_b.discharge(rep, kf, [cuc.convert_contract()], "C06", tier, seed)
     import contracts.fixpoints as cfp
-    engine_b.discharge(rep, kf, [crm.propagate_contract(), cbr.resolve_contract()] + cfp.all_contracts(), "C06", tier, seed)
+    import contracts.collection_ind as cci
+    engine_b.discharge(rep, kf, [crm.propagate_contract(), cbr.resolve_contract(), cci.from_data_inductive_contract()]
+                       + cfp.all_contracts(), "C06", tier, seed)
     import contracts.closure as clo
     clo.macro_presence_obligations(rep, "C06")
     import contracts.containment as ct
